@@ -11,6 +11,6 @@ Has(f) == f \in DOMAIN Ev
 \* all events consumed; otherwise print the first event no action could explain
 Accepted ==
     IF TLCGet("stats").diameter - 1 = Len(Rec) THEN TRUE
-    ELSE /\ PrintT(<<"TRACE-REJECTED", TLCGet("stats").diameter, Rec[TLCGet("stats").diameter]>>)
+    ELSE /\ PrintT(<<"TRACE-REJECTED", TLCGet("stats").diameter>>)
          /\ FALSE
 =============================================================================
